@@ -1,12 +1,11 @@
 (* ModpowInst.v — the Section parameters of MontyProofs / ModpowProofs instantiated with the
    real models of the other areas:
      bdivrem := Div.udivrem Extracted.div     (spec: DivProofsApi.udivrem_spec — closed)
-     bmul    := Mul.umul Extracted.mul        (spec: [mul_spec_holds] below — still an explicit
-                                               hypothesis: MulProofs has no [umul_spec] yet)
-   The Montgomery path (odd modulus) never multiplies big numbers with [bmul], so its
-   theorem is closed. *)
+     bmul    := Mul.umul Extracted.mul        (spec: MulProofs5.umul_spec — closed:
+                                               [mul_spec_proved : mul_spec_holds] below)
+   (The Montgomery path (odd modulus) never multiplies big numbers with [bmul].) *)
 From BigNum Require Import Base BaseLemmas AddSub AddSubProofs Monty MontyProofs Modpow SpecModpow
-  ModinvZ ModpowProofs Div DivProofs DivProofsApi Mul Extracted InstAddSub InstDiv.
+  ModinvZ ModpowProofs Div DivProofs DivProofsApi Mul MulProofs5 Extracted InstAddSub InstDiv InstMul.
 Open Scope Z_scope.
 
 Definition rdivrem := Div.udivrem Extracted.div.
@@ -17,9 +16,13 @@ Lemma rdivrem_spec : forall a b, canon a -> canon b ->
                 else Ret (enc (val a / val b), enc (val a mod val b)).
 Proof. intros; apply udivrem_spec; auto using div_params_ok. Qed.
 
-(** What is still needed from the multiplication area (statement of `umul_spec`). *)
+(** What is needed from the multiplication area: the statement of `umul_spec` at the extracted
+    parameters — proved there (C02). *)
 Definition mul_spec_holds : Prop :=
   forall a b, canon a -> canon b -> rmul a b = Ret (enc (val a * val b)).
+
+Lemma mul_spec_proved : mul_spec_holds.
+Proof. intros a b Ca Cb. unfold rmul. apply umul_spec; auto using mul_params_ok. Qed.
 
 Definition r_monty_modpow := Monty.monty_modpow addsub rdivrem.
 Definition r_plain_modpow := Modpow.plain_modpow rmul rdivrem.
@@ -33,8 +36,7 @@ Theorem r_monty_modpow_spec p x y m : modpow_ok p = true -> canon x -> canon y -
   r_monty_modpow p x y m = Ret (enc (val x ^ val y mod val m)).
 Proof. intros Hp. exact (monty_modpow_spec addsub rdivrem addsub_params_ok rdivrem_spec p Hp x y m). Qed.
 
-Section ModuloMul.
-Hypothesis Hmul : mul_spec_holds.
+Local Notation Hmul := mul_spec_proved.
 
 Theorem r_plain_modpow_spec b e m : canon b -> canon e -> canon m -> val m <> 0 ->
   r_plain_modpow b e m = Ret (enc (if val e =? 0 then 1 else val b ^ val e mod val m)).
@@ -60,4 +62,3 @@ Proof. intros Hp. exact (imodpow_spec addsub rmul rdivrem addsub_params_ok Hmul 
 Theorem r_imodinv_spec p x m : modpow_ok p = true -> icanon x -> icanon m ->
   r_imodinv p x m = omap (option_map ienc) (spec_imodinv (ival x) (ival m)).
 Proof. intros Hp. exact (imodinv_spec addsub rmul rdivrem addsub_params_ok Hmul rdivrem_spec p x m Hp). Qed.
-End ModuloMul.
